@@ -529,6 +529,50 @@ func r18_4(r *Report, p *Program) {
 		if f := fn(r, p, rule, "dynamic/informer.sharedEventHandler."+m); f != nil {
 			loops := engine.LoopOver(f, func(x string) bool { return x == "p0.handlers" })
 			ok, why := len(loops) == 1, "must iterate over all subscribers' handlers"
+			if !ok && len(loops) == 0 {
+				// delegation form: one call h(seh, func(handler){ handler.OnX(…) }) where h iterates all
+				// handlers with the read lock held around the calls of its function argument
+				for _, b := range f.Blocks {
+					for _, in := range b.Instrs {
+						c, isC := in.(*ssa.Call)
+						if !isC {
+							continue
+						}
+						h := engine.StaticFn(c.Common())
+						if h == nil || !strings.HasPrefix(FK(h), engine.ModPrefix) || len(c.Common().Args) != 2 || E(c.Common().Args[0]) != "p0" {
+							continue
+						}
+						cls := p.ResolveFuncValue(c.Common().Args[1])
+						if len(cls) != 1 || len(callsTo(cls[0], false, "cache.ResourceEventHandler."+m)) != 1 {
+							continue
+						}
+						fwd := callsTo(cls[0], false, "cache.ResourceEventHandler."+m)[0]
+						if !strings.HasPrefix(E(fwd.Common().Value), "p0") {
+							continue // must forward to the handler it is given
+						}
+						hl := engine.LoopOver(h, func(x string) bool { return x == "p0.handlers" })
+						if len(hl) != 1 {
+							continue
+						}
+						hls := engine.Locksets(h, nil)
+						okH := false
+						for _, hb := range h.Blocks {
+							for _, hin := range hb.Instrs {
+								if hc, isHC := hin.(*ssa.Call); isHC && hc.Common().Value == ssa.Value(h.Params[1]) && hl[0].Contains(hin) {
+									if _, held := hls[hin]["p0.mutex"]; held {
+										okH = true
+									}
+								}
+							}
+						}
+						if okH {
+							ok, why = true, ""
+						}
+					}
+				}
+				r.Check(rule, FK(f), p.Pos(f.Pos()), ok, "forwards to every handler of every subscriber under RLock (through an iteration helper)", why)
+				continue
+			}
 			if ok {
 				ls := engine.Locksets(f, nil)
 				if _, held := ls[loops[0].Header.Instrs[0]]["p0.mutex"]; !held {
